@@ -25,14 +25,17 @@ META = {
                   "(the code caches a start time on first sight); the ordering claim is only checked when every message's "
                   "lifecycle is in the table, reception times never decrease and rx - calc <= D for every message "
                   "(evaluated by TLC from the logged fields); outside of that only the permutation part is checked. "
-                  "window size 0 is outside the statement (>= 1 s). Burst cases (up to 1.2 * 2^20 messages inside the "
+                  "window size 0 is outside the statement (>= 1 s). Calculated times are compared at full us resolution (sub-tick "
+                  "scenarios with 50 us ticks and random streams with 1 us ticks: lifecycle starts / reception times off the 0.1 ms "
+                  "timestamp grid by 0,1,49,50,99,100,101 us, control requests and capped messages among normal ones). Burst cases (up to 1.2 * 2^20 messages inside the "
                   "buffering window, more than the sorter preallocates) are judged by TLC on a driver-computed summary (count, "
                   "multiset hash in/out, altered messages, first (calc, index) inversion of the output) instead of 10^6 out "
                   "events; the bound is evaluated by TLC from the linear input families; small bursts are additionally "
                   "recorded as full traces (twins) so that the summary scan is tied to TLC's own judgement.",
 }
 
-EMIT_QUICK = [("emit", "Sorter_emit.cfg"), ("emit-w1", "Sorter_emit_w1.cfg"), ("emit-dup", "Sorter_emit_dup.cfg")]
+EMIT_QUICK = [("emit", "Sorter_emit.cfg"), ("emit-w1", "Sorter_emit_w1.cfg"), ("emit-dup", "Sorter_emit_dup.cfg"),
+              ("emit-sub", "Sorter_emit_sub.cfg")]
 EMIT_THOROUGH = EMIT_QUICK + [("emit-back", "Sorter_emit_back.cfg"), ("emit-4", "Sorter_emit_thorough.cfg"),
                               ("emit-w3", "Sorter_emit_w3.cfg"), ("emit-dup2", "Sorter_emit_dup2.cfg")]
 
@@ -48,7 +51,7 @@ def case_stats(cases, bound_of, ordered_of):
     """coverage counters from the recorded traces (information only, never a verdict)"""
     st = {"cases_bound_ok": 0, "cases_outside_bound": 0, "bound_ok_and_reordered": 0, "ctrl_requests": 0,
           "missing_lifecycle_msgs": 0, "cases_with_equal_calc_and_index": 0, "cases_index_not_increasing": 0, "burst_cases_over_2pow20_bound_ok": 0, "burst_max_messages": 0,
-          "burst_twins_reordered": 0, "by_kind": {}, "max_len": 0, "windows": {}, "delays_D": {}}
+          "burst_twins_reordered": 0, "cases_sub_100us_pair_received_reversed_bound_ok": 0, "by_kind": {}, "max_len": 0, "windows": {}, "delays_D": {}}
     for k, evs in cases.items():
         h = evs[0]["hdr"]
         st["by_kind"][h["kind"]] = st["by_kind"].get(h["kind"], 0) + 1
@@ -71,6 +74,11 @@ def case_stats(cases, bound_of, ordered_of):
         keys = [((m["rx"] if m["ctrl"] else min(start[m["lc"]] + m["ts"], m["rx"])), m["index"]) for m in h["msgs"] if m["lc"] in start]
         if len(set(keys)) < len(keys):
             st["cases_with_equal_calc_and_index"] += 1
+        # (coverage only) two calculated times inside one 0.1 ms bucket, different, the later one received first
+        if b and h["tick_us"] < 100 and len(keys) == len(h["msgs"]):
+            us = [kk[0] * h["tick_us"] for kk in keys]
+            if any(us[i] > us[j] and us[i] // 100 == us[j] // 100 for i in range(len(us)) for j in range(i + 1, min(len(us), i + 12))):
+                st["cases_sub_100us_pair_received_reversed_bound_ok"] += 1
         if not ordered_of.get(k, True):
             st["cases_index_not_increasing"] += 1
         if b:
@@ -133,6 +141,7 @@ def check(ctx):
     # (a) model checking of the design module: threshold >= D, permutation, ordered under the bound
     res = c.tlc_must_pass(ctx, "design", "mc/MCSorter.tla", "Sorter_quick.cfg" if quick else "Sorter_thorough.cfg", timeout=3000)
     c.tlc_must_pass(ctx, "design-dup", "mc/MCSorter.tla", "Sorter_dup.cfg", timeout=3000)     # index field never assigned (all 0)
+    c.tlc_must_pass(ctx, "design-sub", "mc/MCSorter.tla", "Sorter_sub.cfg", timeout=3000)     # 50 us ticks, lifecycles off the timestamp grid
     # (b) scenario emission: every complete behaviour of the bounded models, with predicted output and contract verdict
     scn = ctx.path("scenarios.ndjson")
     nscn = 0
@@ -162,7 +171,7 @@ def check(ctx):
     # (c,d) replay on the real code (prediction fast path) + random streams (always traced)
     nrand, ndet, maxlen = (1500, 300, 120) if quick else (8000, 2000, 400)
     ndup = 600 if quick else 3000
-    info = drive(binp, ["--scenarios", scn, "--sample-every", str(max(1, nscn // (400 if quick else 2000))), "--random", str(nrand), "--det", str(ndet), "--dup", str(ndup), "--burst", "4",
+    info = drive(binp, ["--scenarios", scn, "--sample-every", str(max(1, nscn // (400 if quick else 2000))), "--random", str(nrand), "--det", str(ndet), "--dup", str(ndup), "--subtick", "400" if quick else "3000", "--burst", "4",
                         "--seed", str(ctx.seed), "--max-len", str(maxlen)], trace)
     # (e) TLC validates every recorded run against the contract
     v = c.validate_trace(ctx, "sorter", "SorterTrace.tla", trace, timeout=3000)
@@ -174,7 +183,7 @@ def check(ctx):
     v.res.out = ""
     ctx.add_tlc("trace-validation", v.res)
     cases = c.split_cases(trace)
-    ctx.evaluations = info["replayed"] + info["random"] + info["det"] + info["dup"] + 2 * 4 + len(info["burst_sizes"])
+    ctx.evaluations = info["replayed"] + info["random"] + info["det"] + info["dup"] + info["subtick"] + 2 * 4 + len(info["burst_sizes"])
     ctx.traces_validated = info["cases"] - len(v.violations)
     ctx.rule = ("a case = one call of buffer_sort_messages on one (stream, lifecycle table, window, D); TLC scenarios: every "
                 "complete behaviour of the bounded Sorter models, executed on the real code, judged by the model-checked "
@@ -188,7 +197,7 @@ def check(ctx):
             seen.add(json.dumps([h["W"], h["D"], h["table"], h["msgs"]], sort_keys=True))
     ctx.distinct_nontrivial = cov["len_ge2"] + len(seen)
     ctx.exhaustive = True
-    for k in ("replayed", "fast_path", "slow_path", "drift", "drift_dup_index", "sampled", "random", "det", "det_skipped", "dup"):
+    for k in ("replayed", "fast_path", "slow_path", "drift", "drift_dup_index", "sampled", "random", "det", "det_skipped", "dup", "subtick"):
         ctx.extra[k] = info[k]
     ctx.extra["design_conformance"] = {"steps": info["replayed"], "mismatches": info["drift"],
                                        "expected_tie_order_drifts_with_repeated_index": info["drift_dup_index"]}
@@ -205,7 +214,7 @@ def check(ctx):
     if not v.violations:      # vacuity / self-test failures are tool errors; they never mask a verdict
         if (st["bound_ok_and_reordered"] == 0 or st["cases_outside_bound"] == 0 or st["ctrl_requests"] == 0
                 or st["cases_with_equal_calc_and_index"] == 0 or st["burst_cases_over_2pow20_bound_ok"] == 0
-                or st["burst_twins_reordered"] == 0):
+                or st["burst_twins_reordered"] == 0 or st["cases_sub_100us_pair_received_reversed_bound_ok"] == 0):
             raise c.ToolError("vacuous traces: %s" % st)
         binding_selftest(ctx, cases, bound_of, ordered_of, set(cases))
     rej = {r[0]: r for r in v.rejected}
